@@ -294,7 +294,7 @@ func c12Registry(c *Ctx, r *Report) {
 			ok := false
 			for _, ret := range realReturns(m) {
 				if len(ret.Results) == 1 {
-					p := apath(retVals(ret)[0])
+					p := apath(copiedFrom(retVals(ret)[0]))
 					base := p
 					if i := strings.Index(p, "["); i >= 0 {
 						base = p[:i]
@@ -342,7 +342,7 @@ func c12Registry(c *Ctx, r *Report) {
 	nm := c.Method("lint", "linterLookupImpl", "Names")
 	ok := false
 	for _, ret := range realReturns(nm) {
-		ok = len(ret.Results) == 1 && lastField(apath(retVals(ret)[0])) == "lintNames"
+		ok = len(ret.Results) == 1 && lastField(apath(copiedFrom(retVals(ret)[0]))) == "lintNames"
 	}
 	r.Check(ok, "read-api", "linterLookupImpl.Names", nm.Pos(), "returns lintNames", "Names does not return the sorted lintNames table")
 	sm := c.Method("lint", "linterLookupImpl", "Sources")
@@ -363,6 +363,25 @@ func c12Registry(c *Ctx, r *Report) {
 			return
 		}
 		if call, ok := v.(*ssa.Call); ok {
+			if callee := call.Call.StaticCallee(); callee != nil && fnPkgPath(callee) == "slices" && strings.HasPrefix(callee.Name(), "Concat") && len(call.Call.Args) == 1 {
+				// slices.Concat(a, b, c): a fresh slice holding the elements of each
+				if sl, ok := call.Call.Args[0].(*ssa.Slice); ok {
+					if al, ok := sl.X.(*ssa.Alloc); ok {
+						for _, ref := range *al.Referrers() {
+							if ia, ok := ref.(*ssa.IndexAddr); ok {
+								for _, r2 := range *ia.Referrers() {
+									if st, ok := r2.(*ssa.Store); ok && st.Addr == ssa.Value(ia) {
+										p := apath(st.Val)
+										if lastField(strings.TrimSuffix(p, "[:]")) == "lintNames" {
+											merged[p] = true
+										}
+									}
+								}
+							}
+						}
+					}
+				}
+			}
 			if b, ok := call.Call.Value.(*ssa.Builtin); ok && b.Name() == "append" {
 				walk(call.Call.Args[0], d+1, merged)
 				p := apath(call.Call.Args[1])
@@ -548,7 +567,11 @@ func c12Register(c *Ctx, r *Report, impl string, fn *ssa.Function) {
 				}
 				dst := ev.Name
 				base, es := elems(o, ev.Args[0])
-				if isTable(dst, "lints") && isTable(base, "lints") && len(es) == 1 && es[0] == lintP {
+				if ib, ie, sortedPos := sortedInsert(o, ev.Args[0], nameP); isTable(dst, "lintNames") && isTable(ib, "lintNames") && ie == nameP && sortedPos {
+					// slices.Insert(lintNames, <binary-search position of name>, name): updated and still sorted
+					got["lintNames"] = i
+					sortAt = i
+				} else if isTable(dst, "lints") && isTable(base, "lints") && len(es) == 1 && es[0] == lintP {
 					got["lints"] = i
 				} else if isTable(dst, "lintNames") && isTable(base, "lintNames") && len(es) == 1 && es[0] == nameP {
 					got["lintNames"] = i
@@ -640,6 +663,76 @@ func c12Register(c *Ctx, r *Report, impl string, fn *ssa.Function) {
 	r.Check(!unsorted, "register-sorts", id, fn.Pos(), "lintNames sorted after the append", "lintNames is not re-sorted after the append on the success path: Names() would no longer be sorted")
 	r.Check(sawEmpty && !succNoEmpty && earlyUpdate == "", "register-empty-name", id, fn.Pos(), "empty name rejected before any update", "an empty lint name is no longer rejected before the tables are updated"+map[bool]string{true: " (an error path updates " + earlyUpdate + ")", false: ""}[earlyUpdate != ""])
 	r.Check(sawDup && !succNoDup && earlyUpdate == "", "register-duplicate-name", id, fn.Pos(), "duplicate name rejected before any update", "a name already present in lintsByName is no longer rejected before the tables are updated: two lints would share one result slot")
+}
+
+// sortedInsert recognises slices.Insert(base, pos, elem) where pos is the
+// binary-search position of elem in base (sort.SearchStrings / slices.BinarySearch):
+// returns base, the single inserted element and whether pos is such a position.
+func sortedInsert(o *Outcome, t *T, want string) (base, elem string, sortedPos bool) {
+	if t == nil || t.Op != "call" || !strings.HasPrefix(t.Name, "slices.Insert") || len(t.Args) != 3 {
+		return "", "", false
+	}
+	base = t.Args[0].String()
+	va := t.Args[2]
+	if va.Op == "slice" && len(va.Args) > 0 {
+		pre := "&" + strings.TrimPrefix(va.Args[0].String(), "&") + "["
+		n := 0
+		for k, v := range o.Mem {
+			if strings.HasPrefix(k, pre) {
+				n++
+				elem = v.String()
+			}
+		}
+		if n != 1 {
+			return base, "", false
+		}
+	}
+	pos := t.Args[1]
+	if os.Getenv("ZLV_DEBUG") != "" {
+		fmt.Fprintf(os.Stderr, "sortedInsert: base=%s elem=%s pos=%s (%s %s)\n", base, elem, pos, pos.Op, pos.Name)
+	}
+	if pos.Op == "extract" && pos.Name == "0" && len(pos.Args) == 1 {
+		pos = pos.Args[0]
+	}
+	if pos.Op == "call" && len(pos.Args) == 2 && (pos.Name == "sort.SearchStrings" || strings.HasPrefix(pos.Name, "slices.BinarySearch")) &&
+		pos.Args[0].String() == base && pos.Args[1].String() == want {
+		sortedPos = true
+	}
+	return base, elem, sortedPos
+}
+
+// copiedFrom looks through a defensive copy: slices.Clone(x), append([]T(nil), x...),
+// append(x[:0:0], x...), append(make([]T, 0, n), x...) yield (a copy of) x.
+func copiedFrom(v ssa.Value) ssa.Value {
+	call, ok := v.(*ssa.Call)
+	if !ok {
+		return v
+	}
+	if callee := call.Call.StaticCallee(); callee != nil && fnPkgPath(callee) == "slices" && strings.HasPrefix(callee.Name(), "Clone") && len(call.Call.Args) == 1 {
+		return call.Call.Args[0]
+	}
+	if b, ok := call.Call.Value.(*ssa.Builtin); ok && b.Name() == "append" && len(call.Call.Args) == 2 {
+		a0 := call.Call.Args[0]
+		fresh := isNilConst(a0)
+		if ms, ok := a0.(*ssa.MakeSlice); ok {
+			if k, ok := ms.Len.(*ssa.Const); ok && k.Value != nil && k.Value.ExactString() == "0" {
+				fresh = true
+			}
+		}
+		if sl, ok := a0.(*ssa.Slice); ok && sl.Max != nil && sl.High != nil {
+			if k, ok := sl.Max.(*ssa.Const); ok && k.Value != nil && k.Value.ExactString() == "0" {
+				fresh = true
+			}
+		}
+		if fresh {
+			src := call.Call.Args[1]
+			if sl, ok := src.(*ssa.Slice); ok && sl.Low == nil && sl.High == nil {
+				src = sl.X
+			}
+			return src
+		}
+	}
+	return v
 }
 
 // emptyRegistryGuard: the return is dominated by the true edge of
